@@ -1010,7 +1010,11 @@ func (p *Parser) parseTernary(conditionNode ast.Node) ast.Node {
 
 	firstToken := p.curToken // the "?"
 	p.nextToken()            // move past the '?'
-	precedence := p.currentPrecedence()
+	// Both branches are full expressions. The precedence must not be taken
+	// from the token that happens to start the first branch: that token is an
+	// operand, and when it is "(", "-" or "[" its infix precedence would cut
+	// the branch short ("c ? (1) + 2 : 3" was rejected).
+	precedence := LOWEST
 	ifTrue := p.parseExpression(precedence)
 	if ifTrue == nil {
 		p.setTokenError(p.curToken, "invalid syntax in ternary if true expression")
